@@ -1,7 +1,8 @@
 /-
   Reference semantics of the search: plain minimax (negamax form) with no pruning, no ordering, no
   table.  `Q` is the quiescence value the engine's leaves are scored with (stand-pat, then every move of
-  the quiescence selection, fail-hard clamping is NOT part of it), `V d` the depth-limited value.
+  the quiescence selection that can change the value; fail-hard clamping is NOT part of it), `Qplain` the
+  same without the restriction (every move; usually an infinite tree), `V d` the depth-limited value.
 -/
 import Flounder.Model.Search
 
@@ -10,7 +11,40 @@ open Flounder Gen
 
 variable {P : Type} (G : Game P)
 
-/-- quiescence minimax with fuel (`none` = the tree is deeper than the fuel). -/
+/-- PLAIN quiescence minimax with fuel (`none` = the tree is deeper than the fuel): stand-pat, then EVERY
+    move of the quiescence selection.  On a real chess position this tree is almost always infinite
+    (perpetual checks), so `Qplain` is `none` for every fuel there; it is kept as the yardstick the
+    reference value `Q` below is compared with (`Lemmas/QSpec.lean`: `Qplain_agrees`). -/
+def Qplain : Nat → P → Option Int
+  | 0, _ => none
+  | fuel + 1, p =>
+    let inCheck := G.inCheck p
+    let moves := if inCheck then G.moves p else G.qmoves p
+    if moves.isEmpty && inCheck then some (-CHECKMATE_SCORE)
+    else
+      moves.foldl (fun acc m =>
+        match acc, Qplain fuel (G.play p m) with
+        | some a, some v => some (max a (-v))
+        | _, _ => none) (some (G.eval p))
+
+/-- the plain quiescence tree of `p` is finite (some fuel suffices). -/
+def QplainFinite (p : P) : Prop := ∃ n, (Qplain G n p).isSome
+
+/-- the side to move at `p` is checkmated as far as quiescence can see (the test at the top of
+    `search_until_quiet`). -/
+def qMated (p : P) : Bool := (if G.inCheck p then G.moves p else G.qmoves p).isEmpty && G.inCheck p
+
+/-- the child `c` reached by a move from `p` can change the value of `p`: it is a mate, or the move strictly
+    improves the mover's static score (otherwise `-Q c ≤ -eval c ≤ eval p`, the stand-pat value of `p`). -/
+def qRelevant (p c : P) : Bool := qMated G c || decide (G.eval p < -(G.eval c))
+
+/-- the reference quiescence value: stand-pat minimax that only descends into the children that can
+    matter (`qRelevant`); `none` = the tree is deeper than the fuel.  A child that cannot matter is not
+    evaluated, but it is still a node of the tree (a leaf: the engine visits it and returns at once), so it
+    needs one unit of fuel like every other leaf — this keeps "`Q n p` is defined ⇒ `quiesce` answers with
+    fuel `n`" exact.  Wherever the plain tree is finite this IS the plain value (`Qplain_agrees`); it solves
+    the plain stand-pat minimax equations wherever it is defined (`Q_ge_standpat`, `Q_ge_child`,
+    `Q_attained`), and it is defined on every position of a game with a quiescence rank (`Q_total`). -/
 def Q : Nat → P → Option Int
   | 0, _ => none
   | fuel + 1, p =>
@@ -19,11 +53,13 @@ def Q : Nat → P → Option Int
     if moves.isEmpty && inCheck then some (-CHECKMATE_SCORE)
     else
       moves.foldl (fun acc m =>
-        match acc, Q fuel (G.play p m) with
-        | some a, some v => some (max a (-v))
-        | _, _ => none) (some (G.eval p))
+        if qRelevant G p (G.play p m) then
+          match acc, Q fuel (G.play p m) with
+          | some a, some v => some (max a (-v))
+          | _, _ => none
+        else if fuel == 0 then none else acc) (some (G.eval p))
 
-/-- the quiescence tree of `p` is finite (some fuel suffices). -/
+/-- the (relevant) quiescence tree of `p` is finite (some fuel suffices). -/
 def QFinite (p : P) : Prop := ∃ n, (Q G n p).isSome
 
 /-- depth-limited minimax over `Q` with the engine's terminal scores. -/
